@@ -76,7 +76,7 @@ func (P) Gen(rng *sim.Rng, tier string) *harness.Case {
 	}
 	cfg.RPos = rng.Intn(len(cfg.Others) + 1)
 	cfg.RDup = rng.Chance(0.2)
-	if rng.Chance(0.06) && (cfg.Kind == kThrottle || cfg.Kind == kStandalone || cfg.Kind == kBreaker || cfg.Kind == kHotQPS) {
+	if rng.Chance(0.06) && (cfg.Kind == kThrottle || cfg.Kind == kStandalone || cfg.Kind == kBreaker || cfg.Kind == kHotQPS || cfg.Kind == kCustomCb || cfg.Kind == kCustomHot) {
 		cfg.Twin = true
 	}
 	var ops []harness.Op
@@ -643,6 +643,26 @@ func execTwin(cfg *Cfg, o *harness.Outcome) {
 	env := harness.Reset(cfg.Origin*1e6, harness.DefaultGeometry())
 	var waited time.Duration
 	env.Clock.OnSleep = func(d time.Duration) { waited += d }
+	if cfg.Kind == kCustomCb {
+		_ = cb.SetCircuitBreakerGenerator(latchStrategy, func(r *cb.Rule, reuseStat interface{}) (cb.CircuitBreaker, error) {
+			return &latch{rule: r}, nil
+		})
+		defer func() {
+			_, _ = cb.LoadRules(nil)
+			_ = cb.RemoveCircuitBreakerGenerator(latchStrategy)
+		}()
+		o.Probe("breaker_of_a_user_registered_strategy")
+	}
+	if cfg.Kind == kCustomHot {
+		_ = hotspot.SetTrafficShapingGenerator(latchBehavior, func(r *hotspot.Rule, _ *hotspot.ParamsMetric) hotspot.TrafficShapingController {
+			return &latchHot{rule: r, seen: map[interface{}]int64{}}
+		})
+		defer func() {
+			_, _ = hotspot.LoadRules(nil)
+			_ = hotspot.RemoveTrafficShapingGenerator(latchBehavior)
+		}()
+		o.Probe("hot_parameter_rule_of_a_user_registered_behaviour")
+	}
 	perRes := len(cfg.Others)%2 == 1
 	yFirst := cfg.P2%2 == 0
 	variant := (cfg.P1 + cfg.P2 + len(cfg.Others)) % 4 // 0: Y has its own ID; 1: Y has no ID; 2: see twinStolen; 3: renamed
@@ -671,7 +691,7 @@ func execTwin(cfg *Cfg, o *harness.Outcome) {
 				} else {
 					_, _ = flow.LoadRules(l)
 				}
-			case kBreaker:
+			case kBreaker, kCustomCb:
 				var l []*cb.Rule
 				for _, id := range ids {
 					r := cbR(cfg, 0)
@@ -716,7 +736,7 @@ func execTwin(cfg *Cfg, o *harness.Outcome) {
 	loadIDs("X")
 	held := false // X holds something against the next request (it would block it or make it wait)
 	for i := 0; i < 40 && !held && !o.Failed(); i++ {
-		adm, wait := request(cfg.Kind == kBreaker)
+		adm, wait := request(cfg.Kind == kBreaker || cfg.Kind == kCustomCb)
 		held = !adm || wait > 0
 	}
 	if !held || o.Failed() {
